@@ -18,36 +18,40 @@ def tag_of(t):
 def fields_tag(fs): return ''.join('`' + f + "'" + tag_of(x) for f, x in fs)
 
 def gen_value(rng, t, env, depth):
-    """returns (bytes, callbacks)"""
+    """returns (bytes, callbacks, documented text)"""
     k = t[0]
     if k == 'A':
         n = SIZES[t[1]]; v = rng.choice([0, 1, rng.randrange(1 << (8 * n)), (1 << (8 * n)) - 1])
         if t[1] == 'y': v = v & 1
-        return v.to_bytes(n, 'little'), ['A%s%d' % (t[1], v)]
+        if t[1] == 'c': v = rng.choice(b'azAZ09_')
+        sv = v - (1 << (8 * n)) if t[1] in 'bsil' and v >= 1 << (8 * n - 1) else v
+        txt = ('true' if v else 'false') if t[1] == 'y' else chr(v) if t[1] == 'c' else str(sv)
+        return v.to_bytes(n, 'little'), ['A%s%d' % (t[1], v)], txt
     if k == 'Q':
         n = 0 if depth <= 0 else rng.randrange(0, 4)
-        bs, cbs = struct.pack('<I', n), ['[%d:%s' % (n, hx(tag_of(t[1])))]
+        bs, cbs, txts = struct.pack('<I', n), ['[%d:%s' % (n, hx(tag_of(t[1])))], []
         for _ in range(n):
-            b, c = gen_value(rng, t[1], env, depth - 1); bs += b; cbs += c
-        return bs, cbs + [']']
+            b, c, x = gen_value(rng, t[1], env, depth - 1); bs += b; cbs += c; txts.append(x)
+        return bs, cbs + [']'], '[' + ', '.join(txts) + ']' 
     if k == 'T':
-        bs, cbs = b'', ['(' + hx(''.join(tag_of(x) for x in t[1]))]
+        bs, cbs, txts = b'', ['(' + hx(''.join(tag_of(x) for x in t[1]))], []
         for x in t[1]:
-            b, c = gen_value(rng, x, env, depth); bs += b; cbs += c
-        return bs, cbs + [')']
+            b, c, tx = gen_value(rng, x, env, depth); bs += b; cbs += c; txts.append(tx)
+        return bs, cbs + [')'], '(' + ', '.join(txts) + ')' 
     if k == 'V':
         nulls = [i for i, x in enumerate(t[1]) if x[0] == 'U']
         d = rng.choice(nulls) if (depth <= 0 and nulls) else rng.randrange(len(t[1]))
         o = t[1][d]
-        if o[0] == 'U': return bytes([d]), ['<%d:30' % d, '0', '>']
-        b, c = gen_value(rng, o, env, depth - 1)
-        return bytes([d]) + b, ['<%d:%s' % (d, hx(tag_of(o)))] + c + ['>']
+        if o[0] == 'U': return bytes([d]), ['<%d:30' % d, '0', '>'], '{null}'
+        b, c, x = gen_value(rng, o, env, depth - 1)
+        return bytes([d]) + b, ['<%d:%s' % (d, hx(tag_of(o)))] + c + ['>'], x
     if k in ('S', 'R'):
         fs = t[2] if k == 'S' else env[t[1]]
-        bs, cbs = b'', ['{%s:%s' % (hx(t[1]), hx(fields_tag(fs)))]
+        bs, cbs, txts = b'', ['{%s:%s' % (hx(t[1]), hx(fields_tag(fs)))], []
         for f, x in fs:
-            b, c = gen_value(rng, x, env, depth); bs += b; cbs += ['F%s:%s' % (hx(f), hx(tag_of(x)))] + c + ['f']
-        return bs, cbs + ['}']
+            b, c, tx = gen_value(rng, x, env, depth); bs += b; cbs += ['F%s:%s' % (hx(f), hx(tag_of(x)))] + c + ['f']; txts.append(f + ': ' + tx)
+        name = t[1].split('<')[0]
+        return bs, cbs + ['}'], (name + '{ ' + ', '.join(txts) + ' }') if fs else name
 
 BASES = ['Tree', 'Node', 'N', 'ns::List<int>', 'A_b', 'Expr']
 def gen_doc(rng):
@@ -79,8 +83,9 @@ def gen_doc(rng):
 
 def make_case(rng):
     t, env, interesting = gen_doc(rng)
-    b, cbs = gen_value(rng, t, env, rng.randrange(1, 4))
+    b, cbs, txt = gen_value(rng, t, env, rng.randrange(1, 4))
     recursed = sum(1 for c in cbs if c.startswith('{' + hx(list(env)[0]) + ':')) > 1
+    make_case.last_text = txt
     return 'visit %s %s' % (hx(tag_of(t)), hx(b)), ','.join(cbs) + ';0', (interesting and recursed)
 
 def mutate(rng, line):
